@@ -25,3 +25,6 @@ prop("C01", [H("K2_uvarint_rt"), H("K2_uvarint_agree"), H("K3_freqHasLocs"), H("
      explanation="kernel layer only so far")
 
 prop("C08", [H("H08_dict", common={"param": "provs=4"}, quick={"wall": "100s", "shards": 8})])
+
+prop("C12", [H("H12_syn", common={"param": "maxSyn=2"}, quick={"wall": "100s", "shards": 8})])
+prop("C13", [H("H13_synmerge", common={"param": "maxSyn=1,emptyTerm=1"}, quick={"wall": "100s", "shards": 8})])
